@@ -42,6 +42,12 @@ func decodeDeadlineExceeded(_ context.Context, _ string, _ []string, _ proto.Mes
 	return context.DeadlineExceeded
 }
 
+// os.ErrDeadlineExceeded uses a custom type too; like
+// context.DeadlineExceeded it is a singleton that reports Timeout().
+func decodeOsDeadlineExceeded(_ context.Context, _ string, _ []string, _ proto.Message) error {
+	return os.ErrDeadlineExceeded
+}
+
 // errors.fundamental from github.com/pkg/errors cannot be encoded
 // exactly because it includes a non-serializable stack trace
 // object. In order to work with it, we encode it by dumping
@@ -189,6 +195,7 @@ func init() {
 	RegisterLeafDecoder(GetTypeKey(baseErr), decodeErrorString)
 
 	RegisterLeafDecoder(GetTypeKey(context.DeadlineExceeded), decodeDeadlineExceeded)
+	RegisterLeafDecoder(GetTypeKey(os.ErrDeadlineExceeded), decodeOsDeadlineExceeded)
 
 	pkgE := pkgErr.New("")
 	RegisterLeafEncoder(GetTypeKey(pkgE), encodePkgFundamental)
